@@ -307,6 +307,17 @@ impl TerminalRenderer {
                 continue;
             }
 
+            // a replaced wide character leaves its trailing cells blank on the terminal,
+            // they need to be repainted even if their content has not changed
+            if let CellKind::Char(character) = &old.kind {
+                let width = character.width().unwrap_or(0);
+                if width > 1 {
+                    self.marks
+                        .view_mut(pos.row..pos.row + 1, pos.col + 1..pos.col + width)
+                        .fill(CellMark::Damaged);
+                }
+            }
+
             // erase and damage area under old image
             if let CellKind::Image(image) = &old.kind {
                 term.execute(TerminalCommand::ImageErase(image.clone(), Some(pos)))?;
